@@ -27,7 +27,7 @@ RULE = ("random-content NP1 / NP2.4 recordings (bin and cbin) with spike trains 
 ASSUMPTIONS = ["spike times are sorted; a spike is identified by (sample, peak channel): a unit may hold two spikes on one sample (double detection)",
                "compressed inputs are always given a scratch_dir (see DESIGN.md section 5 C13 harness note)",
                "neighbourhood = sites within 200 um of the peak site in the reader's (sorted) channel order"]
-REQUIRED = {"extractions": 6, "rows_compared": 300, "row_sets_exactly_once": 3, "orders_executed": 6, "loader_checks": 3, "units_counted": 20, "scratch_histories": 2, "caller_headers_with_other_geometry": 1, "decompress_faults_injected": 1}
+REQUIRED = {"extractions": 6, "rows_compared": 300, "row_sets_exactly_once": 3, "orders_executed": 6, "loader_checks": 3, "units_counted": 20, "scratch_histories": 2, "caller_headers_with_other_geometry": 1, "headers_announcing_fewer_samples": 1, "decompress_faults_injected": 1}
 CASE_TIMEOUT = 300.0
 MAX_PROCS = 8
 OFF, LEN = 42, 128
@@ -60,15 +60,18 @@ class Scheduler:
         return [None] * len(tasks)
 
 
-def make_input(rng, d, chunk, max_wf, kind=None, ns=None, trim=None):
+def make_input(rng, d, chunk, max_wf, kind=None, ns=None, trim=None, stale_header=None):
     kind = kind or str(rng.choice(["3B2", "NP2.4"]))
     ns = ns or int(rng.integers(12000, 30000))
     if rng.random() < 0.5:
         # the recording ends a little past a chunk boundary: the trailing sliver is shorter than one waveform, a little longer than the post-peak part
         ns = (ns // chunk) * chunk + int(rng.integers(LEN - OFF + 1, LEN + 1))
-    rec = G.make(rng, kind=kind, ns=ns, gains=G.random_gains(rng), content="random", nsync=int(rng.choice([1, 1, 1, 0])))      # also recordings saved without the sync channel
+    # a fifth of the headers were last written before acquisition ended (fewer samples announced than the file holds): the recording is what the file holds
+    claim = ns - int(rng.integers(300, 2500)) if ((rng.random() < 0.2) if stale_header is None else stale_header) else None
+    rec = G.make(rng, kind=kind, ns=ns, gains=G.random_gains(rng), content="random", nsync=int(rng.choice([1, 1, 1, 0])), claim_ns=claim)      # also recordings saved without the sync channel
+    rec.claim = claim
     b = G.write(rec, Path(d) / "rec")
-    if rng.random() < 0.4:
+    if rng.random() < 0.4 and claim is None:
         from vlib import np2 as _np2
         _np2.round_duration(b.with_suffix(".meta"), ns, rec.fs, rng)      # duration written with a few decimals
     lo, hi = OFF, ns - (LEN - OFF)          # valid: lo < s < hi
@@ -122,7 +125,7 @@ def neighbours(h, radius=200.0):
 
 def judge_output(res, out, sr, rec, times, clus, chans, max_wf, label, off=OFF, length=LEN, h=None):
     """saved files vs the source-window model (neighbourhoods from the header the caller handed in, else from the recording's own geometry)"""
-    ns, nc = sr.ns, rec.n
+    ns, nc = rec.ns, rec.n          # (the length of the FILE, from the generator - not what a reader makes of the header)
     tr = np.load(out / "waveforms.traces.npy", mmap_mode="r")
     table = pd.read_parquet(out / "waveforms.table.pqt").reset_index(drop=True)
     chmap = np.load(out / "waveforms.channels.npz")["channels"]
@@ -230,8 +233,10 @@ def run_case(case):
         if cls == "extract":
             chunk = case["chunk"]
             max_wf = int(rng.choice([1, 4, 16, 64]))
-            b, rec, times, clus, chans = make_input(rng, d, chunk, max_wf, trim=case["seed"] % 3 != 1)      # every third extraction keeps the spikes ON the first margin
-            use_c = bool(rng.integers(0, 2))
+            ordinal = case["seed"] % 1000
+            b, rec, times, clus, chans = make_input(rng, d, chunk, max_wf, trim=ordinal % 3 != 1,      # every third extraction keeps the spikes ON the first margin
+                                                    stale_header=ordinal % 5 == 2)                      # every fifth reads a flat file whose header announces fewer samples
+            use_c = bool(rng.integers(0, 2)) and rec.claim is None
             if use_c:
                 sr0 = spikeglx.Reader(b)
                 sr0.compress_file(keep_original=False)
@@ -240,8 +245,10 @@ def run_case(case):
             # the recording is read the way the caller asks (reader_kwargs): sorted (default) or in on-disk channel order; an explicit header is the reader's own
             rk = [None, {"sort": False}, {"sort": True}, {"sort": False}][int(rng.integers(0, 4))]
             sort_flag = True if rk is None else rk["sort"]
-            give_h = bool(rng.integers(0, 2))
-            label = (f"{rec.kind} nsync={rec.nsync} {'cbin' if use_c else 'bin'} ns={rec.ns} chunk={chunk} max_wf={max_wf} spikes={times.size} (spike#0 at {times[0]}) reader_kwargs={rk}"
+            give_h = bool(rng.integers(0, 2)) or ordinal % 4 == 0
+            if rec.claim is not None:
+                res.count("headers_announcing_fewer_samples")
+            label = (f"{rec.kind} nsync={rec.nsync} {'cbin' if use_c else 'bin'}{'' if rec.claim is None else f' (header announces {rec.claim} samples)'} ns={rec.ns} chunk={chunk} max_wf={max_wf} spikes={times.size} (spike#0 at {times[0]}) reader_kwargs={rk}"
                      + (" h=given" if give_h else ""))
             xkw = {} if rk is None else {"reader_kwargs": dict(rk)}
             h_other = None
@@ -249,7 +256,7 @@ def run_case(case):
                 srh = spikeglx.Reader(b, sort=sort_flag)
                 xkw["h"] = {k: np.array(v) for k, v in srh.geometry.items()}
                 srh.close()
-                if rng.random() < 0.5:
+                if rng.random() < 0.5 or ordinal % 4 == 0:
                     # the caller's header describes the sites better than the file's metadata does (another probe generation's pitch: 15 um rows):
                     # the neighbourhoods are those of the header handed in
                     xkw["h"]["y"] = xkw["h"]["y"] * 0.75
